@@ -39,8 +39,9 @@ func (sc *Script) resetExtra() resetExtra {
 }
 
 type resetState struct {
-	ex    resetExtra
-	snap1 string
+	ex       resetExtra
+	snap1    string
+	switched bool
 }
 
 func resetSetup(w *simWorld) error {
@@ -229,6 +230,7 @@ func resetOp(w *simWorld, actor int, op *Op) {
 			w.harnessError("assign export: %v", err)
 		}
 		w.resetAll(st.ex)
+		st.switched = true
 	case "snap":
 		if st.ex.Variant == "B" {
 			return
@@ -286,6 +288,9 @@ func resetCheck(w *simWorld, phase int) {
 		if now != st.snap1 {
 			w.violate("C15", "repeated-reset-changes-views", "second identical soft reset", "views before:\n"+diffLines(st.snap1, now))
 		}
+	}
+	if st.ex.Variant != "B" && !st.switched {
+		w.harnessError("reset script without its policy switch (not a valid metamorphic pair)")
 	}
 	w.finalDump = w.ribDump() + "\n" + w.viewsDump()
 	w.addStateFP(w.finalDump)
